@@ -110,10 +110,14 @@ BandCell(d, s) ==
     LET i == s \div d.ld
         j == (s % d.ld) - d.kl + i
     IN IF s >= 0 /\ s % d.ld <= d.kl + d.ku /\ Stored(d, i, j) THEN <<i, j>> ELSE <<-1, -1>>
-\* inverse map for packed layouts (by search; packed operands are small)
+\* inverse map for packed layouts: row i occupies the slots RowStart(i) .. RowStart(i+1)-1
+PackedRowStart(d, i) == IF d.ul = Upper THEN i * d.c - (i * (i - 1)) \div 2 ELSE (i * (i + 1)) \div 2
 PackedCell(d, s) ==
-    LET hit == {ij \in Cells(d) : Slot(d, ij[1], ij[2]) = s}
-    IN IF hit = {} THEN <<-1, -1>> ELSE CHOOSE ij \in hit : TRUE
+    IF s < 0 \/ s >= (d.c * (d.c + 1)) \div 2 THEN <<-1, -1>>
+    ELSE LET i == CHOOSE ii \in 0 .. d.c - 1 :
+                    PackedRowStart(d, ii) <= s /\ (ii = d.c - 1 \/ PackedRowStart(d, ii + 1) > s)
+             j == IF d.ul = Upper THEN i + (s - PackedRowStart(d, i)) ELSE s - PackedRowStart(d, i)
+         IN IF Stored(d, i, j) THEN <<i, j>> ELSE <<-1, -1>>
 CellAt(d, s) ==
     CASE d.kind \in DenseKinds  -> DenseCell(d, s)
       [] d.kind \in BandKinds   -> BandCell(d, s)
